@@ -335,6 +335,80 @@ func runRdnsCacheCase(t *testing.T, ops []rdnsOp) (sx, sx) {
 	return L(sxInt(6), in), out
 }
 
+// ---- kind 28: PublicIPFetcher.GetIP histories (the cache in front of provider discovery) ----------------
+
+type pubOp struct {
+	dt   time.Duration
+	kind int // 0: the provider answers with address 198.51.100.<val>; 1: it answers 404 (final); 2: every attempt fails in transport
+	val  int64
+}
+
+type pubRT struct {
+	mu    sync.Mutex
+	op    pubOp
+	calls int
+}
+
+func (rt *pubRT) RoundTrip(req *http.Request) (*http.Response, error) {
+	rt.mu.Lock()
+	op := rt.op
+	rt.calls++
+	rt.mu.Unlock()
+	mk := func(code int, body string) *http.Response {
+		return &http.Response{StatusCode: code, Status: fmt.Sprintf("%d", code), Body: io.NopCloser(strings.NewReader(body)), Header: http.Header{}, Request: req}
+	}
+	switch op.kind {
+	case 0:
+		return mk(200, fmt.Sprintf("198.51.100.%d\n", op.val)), nil
+	case 1:
+		return mk(404, "not found"), nil
+	default:
+		return nil, errors.New("connection reset")
+	}
+}
+
+func runPubCacheCase(t *testing.T, ops []pubOp) (sx, sx) {
+	in, out := sxList{}, sxList{}
+	synctest.Test(t, func(t *testing.T) {
+		cache.Cache = gocache.New(5*time.Minute, 0)
+		restore := publicip.VerifSetIPCheckers([]string{"http://p1.invalid/"})
+		defer restore()
+		rt := &pubRT{}
+		f := publicip.VerifNewFetcher(rt)
+		t0 := time.Now()
+		for _, o := range ops {
+			time.Sleep(o.dt)
+			rt.mu.Lock()
+			rt.op, rt.calls = o, 0
+			rt.mu.Unlock()
+			at := time.Since(t0)
+			ip, err := f.GetIP(context.Background())
+			rt.mu.Lock()
+			called := rt.calls > 0
+			rt.mu.Unlock()
+			ok := int64(0)
+			if o.kind == 0 {
+				ok = 1
+			}
+			in = append(in, L(sxInt(int64(at)), sxInt(0), sxInt(ok), sxInt(o.val), sxInt(0)))
+			if err != nil || ip == nil {
+				code := int64(0)
+				if err == nil {
+					code = 2
+				}
+				out = append(out, L(sxInt(code), sxInt(0), sxBool(called)))
+			} else {
+				v := int64(-1)
+				if v4 := ip.To4(); v4 != nil && v4[0] == 198 && v4[1] == 51 && v4[2] == 100 {
+					v = int64(v4[3])
+				}
+				out = append(out, L(sxInt(1), sxInt(v), sxBool(called)))
+			}
+		}
+	})
+	return L(sxInt(28), in), out
+}
+
 func labPol(e labEnv) {
 	r := newRng(e.seed)
 	w, err := newCaseWriter(filepath.Join(e.out, "pol.cases"))
@@ -390,6 +464,26 @@ func labPol(e labEnv) {
 		in, out := runRdnsCacheCase(e.t, ops)
 		w.put(in, out)
 		tags["rdns_cache_sequences"]++
+	}
+	for i := 0; i < n/4; i++ {
+		var ops []pubOp
+		for k := 2 + r.intn(6); k > 0; k-- {
+			o := pubOp{kind: []int{0, 0, 0, 1, 2}[r.intn(5)], val: int64(1 + r.intn(200))}
+			switch r.intn(5) {
+			case 0:
+				o.dt = 2*time.Hour + time.Duration(r.intn(3)) - 1 // around the public-IP cache lifetime
+			case 1:
+				o.dt = 3 * time.Hour
+			case 2:
+				o.dt = 0
+			default:
+				o.dt = time.Duration(1+r.intn(3600)) * time.Second
+			}
+			ops = append(ops, o)
+		}
+		in, out := runPubCacheCase(e.t, ops)
+		w.put(in, out)
+		tags["public_ip_cache_sequences"]++
 	}
 	hsTimedCases(e.t, r, n/2, w, tags)
 	reqTimingCases(e.t, r, n/2, w, tags)
